@@ -183,10 +183,41 @@ def specC01 (d : Judged) : Bool × String × String :=
     (false, "two plugins set the same item (no removal in between) yet the request succeeded", "C01:collision-not-flagged")
   else (true, "", "")
 
+def isInfix (pat s : Str) : Bool :=
+  (List.range (s.length + 1 - pat.length)).any fun i => (s.drop i).take pat.length == pat
+
+/-- the key of a keyed item (what an error message must mention to be about it) -/
+def itemKey : Item → Option Str
+  | .annotation k => some k | .mount d => some d | .device p => some p | .cdi n => some n
+  | .env n => some n | .hugepage s => some s | .unified k => some k | .rlimit t => some t
+  | _ => none
+
+/-- the subject is one the collector's current wording produces (Ledger.subjectOf) -/
+def knownSubject (s : Str) : Bool :=
+  [Item.args, .memLimit, .memReservation, .memSwap, .memKernel, .memKernelTcp, .memSwappiness,
+   .memDisableOom, .memUseHierarchy, .cpuShares, .cpuQuota, .cpuPeriod, .cpuRtRuntime, .cpuRtPeriod,
+   .cpusetCpus, .cpusetMems, .pids, .blockio, .rdt, .cgroupsPath, .oomScoreAdj].any (fun it => Ledger.subjectOf it == s)
+  || [Item.annotation [], .mount [], .device [], .cdi [], .env [], .hugepage [], .unified [], .rlimit []].any
+       (fun it => (Ledger.subjectOf it).isPrefixOf s)
+
+/-- blame with an error text of unknown wording: both named plugins (in either order) set one
+    item of one container, and if that item has a key the text mentions it -/
+def blameLoose (k : Kind) (rs : List (Plugin × Response)) (p q text : Str) : Bool :=
+  (Ledger.containersOf k rs).any fun c =>
+    let sp := (rs.filter fun (n, _) => n = p).flatMap fun (_, r) => Ledger.setsOn false k r c
+    let sq := (rs.filter fun (n, _) => n = q).flatMap fun (_, r) => Ledger.setsOn false k r c
+    sp.any fun it => sq.contains it && (match itemKey it with | some key => isInfix key text | none => true)
+
+def blameHolds (d : Judged) : Bool :=
+  let e := d.obs.err
+  if e.loose || !knownSubject e.subject then
+    blameLoose d.kind d.chain e.p e.q (if e.loose then e.text else e.subject)
+  else Ledger.blameOk d.kind d.chain e.p e.q e.subject
+
 /-- C02: disjoint writers / removal-released items ⇒ success; and the blamed plugins both
     set the named item -/
 def specC02 (d : Judged) : Bool × String × String :=
-  if d.obs.err.kind == "conflict" && !Ledger.blameOk d.kind d.chain d.obs.err.p d.obs.err.q d.obs.err.subject then
+  if d.obs.err.kind == "conflict" && !blameHolds d then
     (false, s!"conflict blames {U d.obs.err.p} and {U d.obs.err.q} for '{U d.obs.err.subject}' which they did not both set",
      s!"C02:blame:{U d.obs.err.subject |>.takeWhile (· != ' ')}")
   else if (Ledger.absRun d.kind [] d.chain).isSome && d.obs.err.kind != "none" then
